@@ -387,9 +387,29 @@ pub fn run_cli(sc: &Scenario, renderer: &str) -> Observation {
         s.push_str(&String::from_utf8_lossy(&b));
         s
     });
-    let mut outb = vec![];
-    let _ = so.read_to_end(&mut outb);
-    let status = child.wait();
+    let th_out = std::thread::spawn(move || {
+        let mut b = vec![];
+        let _ = so.read_to_end(&mut b);
+        b
+    });
+    // wall-clock watchdog: inside the simulation nothing can take long; a scrut that spins
+    // outside of it must not hang the check
+    let started = std::time::Instant::now();
+    let status = loop {
+        match child.try_wait() {
+            Ok(Some(s)) => break Ok(s),
+            Ok(None) => {
+                if started.elapsed() > std::time::Duration::from_secs(180) {
+                    let _ = child.kill();
+                    obs.harness_error = Some("the scrut process did not end within 180 s of wall time".into());
+                    break child.wait();
+                }
+                std::thread::sleep(std::time::Duration::from_millis(2));
+            }
+            Err(e) => break Err(e),
+        }
+    };
+    let outb = th_out.join().unwrap_or_default();
     obs.stderr = th.join().unwrap_or_default();
     obs.stdout = String::from_utf8_lossy(&outb).into_owned();
     match status {
